@@ -484,7 +484,56 @@ func siC04(r *siReport) {
 		r.ok(cn)
 	}
 	siC04Slices(r)
-	r.done("every assignment of the 6 pointer slots of 3 nodes over {nil,n0,n1,n2} (4096 graphs), every 7th with a slice of pointers incl. duplicates, nil and a back edge; every assignment of 6 slice slots of 2 nodes over {nil, empty, two shared lists} (4096 graphs: the same slice in sibling fields, a list that contains its owner, empty slices of two element types before a shared pointer), each with typed and with untyped lists")
+	siC04Kinds(r)
+	r.done("every assignment of the 6 pointer slots of 3 nodes over {nil,n0,n1,n2} (4096 graphs), every 7th with a slice of pointers incl. duplicates, nil and a back edge; every assignment of 6 slice slots of 2 nodes over {nil, empty, two shared lists} (4096 graphs: the same slice in sibling fields, a list that contains its owner, empty slices of two element types before a shared pointer); 3 shapes with two containers of different kinds at one address before a shared pointer, each with typed and with untyped lists")
+}
+
+// ZK*: two containers of different kinds at one address (a slice and a pointer to its first element, a struct
+// and a pointer to its first field) in front of a shared pointer
+type ZK1 struct {
+	P    *ZInner
+	S    []ZInner
+	Q, R *ZInner
+}
+type ZK2 struct {
+	S    []ZInner
+	P    *ZInner
+	Q, R *ZInner
+}
+type ZKIn struct {
+	First ZInner
+	N     int32
+}
+type ZK3 struct {
+	W    *ZKIn
+	F    *ZInner
+	Q, R *ZInner
+}
+
+func siC04Kinds(r *siReport) {
+	check := func(cn string, v interface{}, q, rr func(interface{}) *ZInner) {
+		out, err := siRoundTrip(v)
+		if err != nil {
+			r.fail(cn, err.Error())
+			return
+		}
+		if reflect.TypeOf(out) != reflect.TypeOf(v) {
+			r.fail(cn, fmt.Sprintf("type %T", out))
+			return
+		}
+		a, b := q(out), rr(out)
+		if a == nil || b == nil || a != b || a.A != 9 {
+			r.fail(cn, fmt.Sprintf("the shared pointer behind the two containers at one address came back as %v / %v", a, b))
+			return
+		}
+		r.ok(cn)
+	}
+	s := []ZInner{{1, "a"}, {2, "b"}}
+	x := &ZInner{9, "x"}
+	check("kinds/ptr-to-first-element-then-slice", &ZK1{P: &s[0], S: s, Q: x, R: x}, func(o interface{}) *ZInner { return o.(*ZK1).Q }, func(o interface{}) *ZInner { return o.(*ZK1).R })
+	check("kinds/slice-then-ptr-to-first-element", &ZK2{S: s, P: &s[0], Q: x, R: x}, func(o interface{}) *ZInner { return o.(*ZK2).Q }, func(o interface{}) *ZInner { return o.(*ZK2).R })
+	w := &ZKIn{First: ZInner{3, "c"}, N: 4}
+	check("kinds/struct-then-ptr-to-first-field", &ZK3{W: w, F: &w.First, Q: x, R: x}, func(o interface{}) *ZInner { return o.(*ZK3).Q }, func(o interface{}) *ZInner { return o.(*ZK3).R })
 }
 
 // ZS: the same slice in several fields (C04: "the same slice in two sibling fields")
